@@ -178,6 +178,18 @@ pub fn handle(req: &Req) -> Resp {
                     };
                     Resp { kind: "Ok".into(), value_hex: hex::encode(pb), err_node: hex::encode(eb), ..Default::default() }
                 }
+                "program_sensitive" => {
+                    // programs rich in constructs that the restriction flags look at (operand sizes around the LIMITS
+                    // thresholds, nested guards, padded softfork arguments, unknown opcodes)
+                    let fl = crate::r#gen::programs::gen_flags(&mut t);
+                    let Some(p) = crate::checks::c07::gen_sensitive(&mut t, fl) else {
+                        return Resp { kind: "TOOBIG".into(), ..Default::default() };
+                    };
+                    let (Some(pb), Some(eb)) = (encode_classic(&p.prog, 1 << 20), encode_classic(&p.env, 1 << 20)) else {
+                        return Resp { kind: "TOOBIG".into(), ..Default::default() };
+                    };
+                    Resp { kind: "Ok".into(), value_hex: hex::encode(pb), err_node: hex::encode(eb), cost: fl as u64, ..Default::default() }
+                }
                 "bytes" => {
                     let b = crate::r#gen::bytes::gen_classic_bytes(&mut t);
                     Resp { kind: "Ok".into(), value_hex: hex::encode(b), ..Default::default() }
